@@ -566,7 +566,18 @@ class Interp:
             if isinstance(base, Sym):
                 if (base.tag, e.attr) in self.heap:
                     return self.heap[(base.tag, e.attr)]   # attribute of a symbolic object, whatever name it is reached through
+                if base.tag == "self" and isinstance(e.ctx, ast.Load) and self.cls is not None:
+                    cv = self._class_const(self.cls, e.attr, depth)    # a class-level constant read through the instance
+                    if cv is not None:
+                        return cv
                 return Sym(f"{base.tag}.{e.attr}")
+            if isinstance(e.value, ast.Name) and e.value.id not in env and isinstance(e.ctx, ast.Load) and self.fn_stack:
+                full_ = self.prog.resolve_name(self.fn_stack[-1].module, e.value.id)       # ClassName.CONSTANT
+                ci_ = self.prog.classes.get(full_) if full_ else None
+                if ci_ is not None:
+                    cv = self._class_const(ci_, e.attr, depth)
+                    if cv is not None:
+                        return cv
             return UNKNOWN
         if isinstance(e, ast.UnaryOp) and isinstance(e.op, ast.Not):
             return not self.truthy(self.ev(e.operand, env, depth))
@@ -809,6 +820,12 @@ class Interp:
             finally:
                 env[c.func.id] = saved
         opname = None
+        if alias is None and isinstance(c.func, ast.Name) and c.func.id not in env and self.fn_stack:
+            g_ = self._module_global(c.func.id, depth)
+            if isinstance(g_, Sym) and g_.tag.startswith("operator."):
+                alias = g_
+        if isinstance(alias, Sym) and alias.tag.startswith("operator.") and alias.tag[9:] in _ARITH_OPS and len(args) == _ARITH_OPS[alias.tag[9:]][1]:
+            return self.apply(alias, args, env, depth)
         if isinstance(alias, Sym) and alias.tag.startswith("operator."):
             opname = alias.tag[9:]
         elif isinstance(c.func, ast.Attribute) and isinstance(c.func.value, ast.Name) and c.func.value.id == "operator":
@@ -922,6 +939,8 @@ class Interp:
                 return out_
             if nm in ("methodcaller", "attrgetter", "itemgetter") and nm not in env and args and not kwargs and (nm != "methodcaller" or isinstance(args[0], str)):
                 return BoundOp(nm, list(args))
+            if nm == "map" and len(args) >= 3 and all(isinstance(a_, list) for a_ in args[1:]) and nm not in env:
+                return [self.apply(args[0], list(xs), env, depth) for xs in zip(*args[1:])]
             if nm == "map" and len(args) == 2 and isinstance(args[1], (list, set)) and nm not in env:
                 return [self.apply(args[0], [x], env, depth) for x in (args[1] if isinstance(args[1], list) else sorted(args[1], key=repr))]
             if nm == "filter" and len(args) == 2 and isinstance(args[1], list) and nm not in env and args[0] is not None:
@@ -1188,11 +1207,24 @@ class Interp:
                         if k.startswith("self."):
                             env[k] = v
                     return rv
-        if isinstance(c.func, ast.Attribute) and nm in ("append", "pop", "popleft", "add", "remove", "extend", "update", "sort", "reverse", "union", "intersection", "difference") and args is not None:
+        if isinstance(c.func, ast.Attribute) and nm in _CONTAINER_METHODS and args is not None:
             base = self.ev(c.func.value, env, depth)
             if isinstance(base, list):
                 if nm == "append" and args:
                     base.append(args[0])
+                    return None
+                if nm == "appendleft" and args:
+                    base.insert(0, args[0])
+                    return None
+                if nm == "extendleft" and args and isinstance(args[0], list):
+                    for x_ in args[0]:
+                        base.insert(0, x_)           # deque.extendleft inserts one by one: the argument ends up reversed
+                    return None
+                if nm == "insert" and len(args) == 2 and isinstance(args[0], int) and not isinstance(args[0], bool):
+                    base.insert(args[0], args[1])
+                    return None
+                if nm == "clear" and not args:
+                    base.clear()
                     return None
                 if nm == "extend" and args and isinstance(args[0], list):
                     base.extend(args[0])
@@ -1234,6 +1266,11 @@ class Interp:
                 return None
             if isinstance(base, dict) and nm == "pop" and args:
                 return base.pop(self._hashable(args[0]), args[1] if len(args) > 1 else UNKNOWN)
+            if isinstance(base, (list, set, dict)) and nm in _MUTATORS:
+                # a container the model holds concretely is modified in a way the model does not follow: whatever is computed from it afterwards
+                # would be computed from a stale value - the run is marked as not followed instead
+                self.undecided.append(f"{type(base).__name__}.{nm}({', '.join(type(a).__name__ for a in args)}) is not modelled: the container's contents are not followed from here")
+                return UNKNOWN
         if nm in ("copy", "deepcopy") and len(c.args) == 1 and not c.keywords and (isinstance(c.func, ast.Name) or (
                 isinstance(c.func, ast.Attribute) and isinstance(c.func.value, ast.Name) and c.func.value.id == "copy" and "copy" not in env)):
             # copy.copy(x): a new object of the same kind holding the same attribute values (one level); copy.deepcopy(x) of a symbolic
@@ -1271,6 +1308,14 @@ class Interp:
         return UNKNOWN
 
 
+_MUTATORS = ("append", "appendleft", "extend", "extendleft", "insert", "pop", "popleft", "popitem", "remove", "discard", "clear", "add", "update", "sort", "reverse",
+             "setdefault", "rotate", "intersection_update", "difference_update", "symmetric_difference_update")
+_CONTAINER_METHODS = _MUTATORS + ("union", "intersection", "difference")
+_ARITH_OPS = {"mul": (ast.Mult, 2), "add": (ast.Add, 2), "sub": (ast.Sub, 2), "truediv": (ast.Div, 2), "floordiv": (ast.FloorDiv, 2), "mod": (ast.Mod, 2),
+              "neg": (ast.USub, 1), "pos": (ast.UAdd, 1), "not_": (ast.Not, 1),
+              "lt": (ast.Lt, 2), "le": (ast.LtE, 2), "gt": (ast.Gt, 2), "ge": (ast.GtE, 2), "eq": (ast.Eq, 2), "ne": (ast.NotEq, 2)}
+
+
 def _install():
     def apply(self, fv: Any, args: list, env: dict, depth: int) -> Any:
         """call a callable value (closure, lambda, symbolic callable) on interpreted arguments"""
@@ -1303,6 +1348,14 @@ def _install():
             return args[0].name if isinstance(args[0], TypeV) else args[0].tag if isinstance(args[0], Sym) else str(args[0])
         if isinstance(fv, Sym) and fv.tag in ("operator.getitem", "operator.contains") and len(args) == 2:
             return self.apply(BoundOp("__getitem__" if fv.tag.endswith("getitem") else "__contains__", args[0]), [args[1]], env, depth)
+        if isinstance(fv, Sym) and fv.tag.startswith("operator.") and fv.tag[9:] in _ARITH_OPS and len(args) == _ARITH_OPS[fv.tag[9:]][1]:
+            # operator.mul(a, b) is a * b: evaluated as the expression, so symbolic operands are handled as everywhere else
+            names_ = ["__a", "__b"][:len(args)]
+            opn = _ARITH_OPS[fv.tag[9:]][0]
+            node = (ast.BinOp(left=ast.Name(id="__a", ctx=ast.Load()), op=opn(), right=ast.Name(id="__b", ctx=ast.Load())) if len(args) == 2 and issubclass(opn, ast.operator)
+                    else ast.Compare(left=ast.Name(id="__a", ctx=ast.Load()), ops=[opn()], comparators=[ast.Name(id="__b", ctx=ast.Load())]) if len(args) == 2
+                    else ast.UnaryOp(op=opn(), operand=ast.Name(id="__a", ctx=ast.Load())))
+            return self.ev(ast.fix_missing_locations(node), dict(zip(names_, args)), depth)
         if isinstance(fv, Sym) and self.sym_result is not None:
             return self.sym_result(fv, args)
         return UNKNOWN
@@ -1410,11 +1463,28 @@ def _install():
             fi = self.prog.functions.get(full) if full else None
             if fi is not None and fi.cls is None and fi.parent is None and isinstance(fi.node, (ast.FunctionDef, ast.AsyncFunctionDef)):
                 val = LocalFn(fi.node, {}, fi, self._defaults(fi.node, {}, depth))
+        if val is None:
+            # a function of the operator module imported by name (from operator import mul)
+            full = self.prog.resolve_name(mod, name)
+            if full and full.startswith("operator.") and full.count(".") == 1:
+                val = Sym(full)
         if val is None or val is UNKNOWN:
             return None
         self.globals[key] = val
         return val
 
+    def _class_const(self, cls_info, attr: str, depth: int):
+        """NAME = <literal / tuple / list / dict of names and constants> in the body of the class or of one of its bases"""
+        for k_ in self.prog.mro(cls_info):
+            for st_ in k_.node.body:
+                tg_ = st_.targets[0] if isinstance(st_, ast.Assign) and len(st_.targets) == 1 else st_.target if isinstance(st_, ast.AnnAssign) else None
+                if isinstance(tg_, ast.Name) and tg_.id == attr and getattr(st_, "value", None) is not None \
+                        and isinstance(st_.value, (ast.Constant, ast.List, ast.Tuple, ast.Dict, ast.Set, ast.Name, ast.Attribute)):
+                    v_ = self.ev(st_.value, {}, depth + 1)
+                    return None if v_ is UNKNOWN else v_
+        return None
+
+    Interp._class_const = _class_const
     Interp._module_global = _module_global
     Interp.call_local = call_local
     Interp.apply = apply
